@@ -156,6 +156,10 @@ static Json gen_c12(uint64_t seed, long i, std::vector<Format*> const& fmts)
     p.set("fmt", f->name); p.set("variant", r.pick(f->write_types));
     int w = (int)(r.chance(2, 3) ? r.range(1, 17) : r.range(1, 40)), h = (int)(r.chance(2, 3) ? r.range(1, 9) : r.range(1, 40));
     if (f->name == "tiff" && r.chance(1, 3)) { w = (int)r.pick({15, 16, 17, 31, 32, 33}); h = (int)r.pick({1, 15, 16, 17, 33}); }
+    // dimensions around the byte boundaries of the header fields that store them (8/16-bit fields, multi-byte encodings)
+    bool edge = r.chance(1, 12), edge_w = r.chance(1, 2);
+    int big = (int)r.pick({255, 256, 257, 300, 511, 512, 1025}), small = (int)r.range(1, 3);
+    if (edge) { w = edge_w ? big : small; h = edge_w ? small : big; }
     p.set("w", w); p.set("h", h); p.set("cseed", (long long)r.below(1u << 30));
     p.set("content", f->name == "jpeg" ? (int)r.pick({1, 3}) : (int)r.pick({0, 0, 0, 1, 2, 4, 4}));
     p.set("org", (int)r.pick({0, 0, 1, 1, 2, 3, 4}));
